@@ -235,6 +235,7 @@ def run(rep, repo, tier):
     except Unknown as u:
         rep.inconclusive('C16.R3', parse_where, 'the guards of the parser.error calls can be evaluated on two-criterion valuations', got=str(u))
     check_helper(rep, repo, helper, N)
+    check_parse_keeps_pairs(rep, repo, 'C16.R6')
     check_extras_isolation(rep, repo, tier)
     check_extras_unfiltered(rep, repo, tier)
     check_extras_not_consumed(rep, repo)
@@ -410,6 +411,27 @@ def check_helper(rep, repo, helper, N, r1='C16.R1', r3='C16.R3', r6='C16.R6'):
         want = ('tuple', (opt, ('slice', args_, C(1), NONE))) if case == 'list' else ('tuple', (opt, NONE))
         rep.check(val == want, r6, where, ('list-valued flag keeps (criterion, arguments[1:])' if case == 'list' else 'scalar flag gives (criterion, None)'),
                   got=show(val).replace(show(b), 'it'), want=show(want).replace(show(b), 'it'), construct='extras of %s flag: %s' % (case, show(val).replace(show(b), 'it')))
+
+
+def check_parse_keeps_pairs(rep, repo, rule):
+    """R6 (parser side, after the ordering): the (criterion, extras) pairs are handed over as built - nothing in parse() appends
+    to, removes from or overwrites the extras of a pair (a "default cut-off" filled in here changes what a criterion without
+    arguments means)"""
+    pf = parser_facts(repo)
+    helper = repo.method('Options_parser', '_get_ordered_optimisations')
+    parse_where = repo.method('Options_parser', 'parse').where
+    changed = []
+    for e, ctx in iter_effects(pf.effs):
+        if e.kind == 'append' and e.target[0] in ('idx', 'bvar') and any(c.kind == 'call' and c.target is helper for c, _ in ctx) is False:
+            base = e.target
+            while base[0] == 'idx':
+                base = base[1]
+            if base[0] == 'bvar':
+                changed.append((e, '%s.%s(%s)' % (show(e.target)[:40], e.op, show(e.value)[:40])))
+        if e.kind in ('store', 'augstore') and e.target[0] == 'idx' and e.target[1][0] in ('bvar', 'idx') and not any(c.kind == 'call' and c.target is helper for c, _ in ctx):
+            changed.append((e, '%s = %s' % (show(e.target)[:40], show(e.value)[:40])))
+    rep.check(not changed, rule, parse_where, 'parse() hands the ordered (criterion, extras) pairs over as the ordering helper built them', got=[c_[1] for c_ in changed][:3] or 'no in-place change',
+              want='no append / store into a pair or its extras', construct='extras modified in parse(): %s' % (changed[0][1] if changed else ''), loc=changed[0][0].loc if changed else None)
 
 
 def check_extras_not_consumed(rep, repo, rule='C16.R6'):
